@@ -17,7 +17,16 @@ let z_of_string s =
   else (match n_of_string s with N0 -> Z0 | Npos p -> Zpos p)
 let string_of_z = function Z0 -> "0" | Zpos p -> string_of_n (Npos p) | Zneg p -> "-" ^ string_of_n (Npos p)
 
-let value_of t =
+let big_tokens : (string, n list) Hashtbl.t = Hashtbl.create 16
+let rec value_of t =
+  if String.length t > 0 && t.[0] = '#' && String.length t <= 24
+     && int_of_string (String.sub t 1 (String.index t 'x' - 1)) > 4096 then begin
+    (* the few long names / values of a run are built once and shared (lists are immutable) *)
+    match Hashtbl.find_opt big_tokens t with
+    | Some v -> v
+    | None -> let v = value_of_raw t in if Hashtbl.length big_tokens < 64 then Hashtbl.add big_tokens t v; v end
+  else value_of_raw t
+and value_of_raw t =
   if String.length t > 0 && t.[0] = '#' then begin
     let x = String.index t 'x' in
     let len = int_of_string (String.sub t 1 (x - 1)) in
@@ -34,7 +43,7 @@ let valtok (v : n list) =
     let h = ref 0xcbf29ce484222325L in
     List.iter (fun b -> h := Int64.mul (Int64.logxor !h (Int64.of_int (int_of_n b))) 0x100000001b3L) v;
     Printf.sprintf "#%d.%016Lx" len !h end
-let trigs_of t = if t = "." then [] else List.map bytes_of_hex (String.split_on_char '+' t)
+let trigs_of t = if t = "." then [] else List.map value_of (String.split_on_char '+' t)
 let trigtok (l : n list list) =
   if l = [] then "." else String.concat "+" (List.sort_uniq compare (List.map hex_of_bytes l))
 
@@ -45,22 +54,32 @@ let value_len t =
     max (int_of_string (String.sub t 1 (x - 1))) ((String.length t - x - 1) / 2) end
   else if t = "-" then 0 else String.length t / 2
 (* the environment of the process-shared variant: a value larger than the whole shared segment cannot be
-   copied into it, string_type tmp = to_int(a) throws std::bad_alloc and store() returns (fault FDropBefore) *)
+   copied into it, string_type tmp = to_int(a) throws std::bad_alloc, the catch block removes the key and
+   store() returns (fault FDropBefore) *)
 let fault_of backend vtok =
   if String.length backend > 1 && backend.[0] = 'p' then begin
     let kib = int_of_string (String.sub backend 1 (String.length backend - 1)) in
     if value_len vtok > kib * 1024 then FDropBefore else FNone end
   else FNone
+(* ... and the same for the names: a key larger than the segment makes to_int(key) throw inside the second try block,
+   before generation++ (FClear false: nl_clear, counter untouched); a trigger name larger than the segment makes
+   add_trigger throw after generation++ (FClear true) *)
+let store_fault backend ktok vtok trtok =
+  let big t = fault_of backend t <> FNone in
+  if big vtok then FDropBefore
+  else if big ktok then FClear false
+  else if trtok <> "." && List.exists big (String.split_on_char '+' trtok) then FClear true
+  else FNone
 
 let parse_op backend tok =
   match String.split_on_char ':' tok with
   | ["S"; k; v; tr; d; g] ->
-      let f = fault_of backend v in
-      ("s", Store (bytes_of_hex k, (if f = FNone then value_of v else []), trigs_of tr, z_of_string d,
+      let f = store_fault backend k v tr in
+      ("s", Store (value_of k, (if f = FNone then value_of v else []), trigs_of tr, z_of_string d,
                    (if g = "-" then None else Some (n_of_string g)), f, []))
-  | ["F"; k] -> ("f", Fetch (bytes_of_hex k))
-  | ["R"; t] -> ("r", Rise (bytes_of_hex t))
-  | ["D"; k] -> ("d", Remove (bytes_of_hex k))
+  | ["F"; k] -> ("f", Fetch (value_of k))
+  | ["R"; t] -> ("r", Rise (value_of t))
+  | ["D"; k] -> ("d", Remove (value_of k))
   | ["C"] -> ("c", Clear)
   | ["T"; n] -> ("t", Tick (z_of_string n))
   | _ -> failwith "bad op"
@@ -72,14 +91,19 @@ let parse_op backend tok =
    only when a fetch_page miss switched copy_to_cache on. ---- *)
 let z_of_int_str s = z_of_string s
 let stats_tok st = let (k, t) = stats st.i_cache in string_of_n k ^ "/" ^ string_of_n t
-let run_ifc lim t0 toks =
+let run_ifc backend lim t0 toks =
   let st = ref (i_init (n_of_string lim)) and now = ref (z_of_string t0) in
   let gz = ref false and finished = ref false and copying = ref false in
   let step o = let ((n', st'), out) = i_step !now o !st in now := n'; st := st'; out in
   let one tok =
     let body = match String.split_on_char ':' tok with
       | ["S"; k; v; tr; secs; notr] ->
-          ignore (step (IStore (bytes_of_hex k, value_of v, trigs_of tr, z_of_string secs, notr = "1"))); "s"
+          (* a frame larger than the whole shared segment cannot be copied: the back end removes the key *)
+          if fault_of backend v = FNone then
+            ignore (step (IStore (bytes_of_hex k, value_of v, trigs_of tr, z_of_string secs, notr = "1")))
+          else
+            ignore (step (IStoreFail (bytes_of_hex k, trigs_of tr, z_of_string secs, notr = "1")));
+          "s"
       | ["F"; k; notr] ->
           (match step (IFetch (bytes_of_hex k, notr = "1")) with IHit v -> "h:" ^ valtok v | _ -> "m")
       | ["A"; t] -> ignore (step (IAdd (bytes_of_hex t))); "a"
@@ -138,5 +162,5 @@ let () = main_loop (function
         | OMiss -> "m:" ^ st
         | ONone -> tag ^ ":" ^ st) ops answers)
   | "hm" :: toks -> run_hm toks
-  | ("ifc" | "ifp") :: _backend :: lim :: t0 :: toks -> run_ifc lim t0 toks
+  | ("ifc" | "ifp") :: backend :: lim :: t0 :: toks -> run_ifc backend lim t0 toks
   | _ -> "BAD-CASE")
